@@ -41,10 +41,12 @@ theorem C17_resolve_spec_partial (c : Ctx) (arg : Value) (v : JVal) (ts : List T
 Missing from `C17_resolve_spec_partial`:
 * lenses on `:error:` / `%last_error%`: the code does NOT record the lens — `C17_full` is refuted
   (`C17_full_refuted_by_error_lens`), a finding replayed on the real interpreter by the harness;
-* lenses into canon streams and canon maps (`#c.$.[0]`, `#%m`, `#%m.$.key`): not executed by the model yet
-  (`resolveValue` answers `unmodelled`); checked on the real interpreter only (harness oracle), where
-  `#c.$.[i].field` is a second finding (lens dropped).  Whole canon streams (`#c`) ARE covered by
-  `C17_resolve_spec_partial`. -/
+* lenses into canon streams and canon maps (`#c.$.[0].field`, `#%m.$.key`): executed by the model
+  (`canonStreamApplyLambda`, `canonMapApplyLambda`, compared with the implementation by the correspondence runs) but the
+  code deviates from the wording: `#c.$.[i].field` hands out the element's tetraplet WITHOUT `.field` (second finding:
+  lens dropped), `#%m.$.key` REPLACES the lens field (`C17_canon_map_lens_key_tetraplet`), `#%m.$.key.[i]` is the
+  tetraplet of the `i`-th value under the key (`C17_canon_map_lens_key_index_tetraplet`).  Whole canon streams (`#c`)
+  and whole canon maps (`#%m`) ARE covered by `C17_resolve_spec_partial`. -/
 def C17_full : Prop :=
   ∀ (c : Ctx) (arg : Value) (v : JVal) (ts : List Tetraplet) (p : Provenance),
     SpecDefined arg = true → resolveValue c arg = .ok (v, ts, p) → expectedTetraplets arg (prov c) = some ts
@@ -341,7 +343,16 @@ theorem C17_ap_binding (c : Ctx) (arg : Value) (va : ValueAggregate) (t : Tetrap
     | error e => simp [hg] at h
     | panic s => simp [hg] at h
   | canonWL n l => simp [Covered] at hcov
-  | canonMap n => simp [Covered] at hcov
+  | canonMap n =>
+    -- `(ap #%m x)`: the aggregate has a canon provenance (neither a service result nor a literal)
+    simp only [applyToArg, bind, Res.bind] at h
+    cases hg : c.scalars.getCanonMap n with
+    | ok cs =>
+      simp only [hg, pure] at h
+      injection h with h; subst h
+      exact ⟨fun k hk => (by simp [ValueAggregate.new] at hk), fun hl => (by simp [ValueAggregate.new] at hl)⟩
+    | error e => simp [hg] at h
+    | panic s => simp [hg] at h
   | canonMapWL n l => simp [Covered] at hcov
 
 /-- **Fold iterators**: the `k`-th element of an iterated array carries the tetraplet the specification
@@ -350,7 +361,7 @@ gives for the iterable, extended by the element index the way the interpreter wr
 `fold_lens`).  (For service-result provenance; an element of a literal-provenance iterator that is
 itself iterated is first normalised by `ValueAggregate::new` and keeps the peer only.) -/
 theorem C17_fold_element_tetraplet (c : Ctx) (iterable : Value) (itv : IterableValue) (t0 : Tetraplet)
-    (hnc : ∀ n, iterable ≠ .canon n)
+    (hnc : ∀ n, iterable ≠ .canon n) (hncm : ∀ n, iterable ≠ .canonMap n)
     (h : createScalarIterable c iterable = .ok (some itv)) (hs : expectedTetraplets iterable (prov c) = some [t0])
     (k : Nat) (x : JVal) (t : Tetraplet) (pos : Nat) (p : Provenance) (cid : Cid) (hp : p = .serviceResult cid)
     (hk : (itv.setCursor k).peek = .ok (some (x, t, pos, p))) : t = iterElem t0 k := by
@@ -454,8 +465,9 @@ theorem C17_fold_element_tetraplet (c : Ctx) (iterable : Value) (itv : IterableV
   -- canon streams are iterated by the real interpreter only (harness oracle); no canon bindings in `prov` yet
   | canon n => exact absurd rfl (hnc n)
   | canonWL n l => simp [createScalarIterable, unmodelled] at h
-  | canonMap n => simp [createScalarIterable, unmodelled] at h
-  | canonMapWL n l => simp [createScalarIterable, unmodelled] at h
+  -- canon maps are iterated pair by pair, each pair with its own tetraplet (`C17_canon_map_fold_element_tetraplet`)
+  | canonMap n => exact absurd rfl (hncm n)
+  | canonMapWL n l => simp [expectedTetraplets] at hs
 
 /-- **Folds over canon streams**: the iterator denotes the elements of the canon stream with the tetraplets
 they were canonicalised with (no element index is appended) — element `k` carries the `k`-th tetraplet the
@@ -533,7 +545,8 @@ theorem keyedList_mergeStores (env : Env) (prev cur : List (Cid × Tetraplet)) (
 keyed by content (which the preparation stage checks: `CidStore::verify`) -/
 theorem envInv_initCtx (env : Env) (prev cur : DataIn) (p : RunParams) (results : List (String × CallServiceResult))
     (hp : KeyedList env prev.cid.tetraplets) (hc : KeyedList env cur.cid.tetraplets) : EnvInv env (initCtx prev cur p results) := by
-  refine ⟨keyedList_mergeStores env _ _ hp hc, ⟨?_, ?_, ?_⟩, ?_, ?_, ?_⟩
+  refine ⟨keyedList_mergeStores env _ _ hp hc, ⟨?_, ?_, ?_, ?_⟩, ?_, ?_, ?_⟩
+  · intro e he; simp [initCtx] at he
   · intro e he; simp [initCtx] at he
   · intro e he; simp [initCtx] at he
   · intro e he; simp [initCtx] at he
@@ -646,5 +659,68 @@ example : (match createScalarIterable exCanonCtx (.canon "#cs") with
 example : (match issueRequest ⟨"me", "s", "f", ""⟩ [.scalarWL "x" exLens, .literal "lit", .scalar "x", .scalar "x"] exCtx with
     | .ok c' => c'.callRequests.map (fun r => r.2.tetraplets)
     | _ => []) = [[[⟨"A", "svc", "f", ".$.a.[1]"⟩], [⟨"init", "", "", ""⟩], [exProducer], [exProducer]]] := by rfl
+
+/-- **Folds over canon maps**: the iterator denotes key-value pairs of the canon map (the last pair of every key),
+each with the tetraplet it was canonicalised with (no element index is appended): the tetraplet of every iterated
+pair is one of those the specification lists for `#%m`. -/
+theorem C17_canon_map_fold_element_tetraplet (c : Ctx) (n : String) (itv : IterableValue) (ts : List Tetraplet)
+    (h : createScalarIterable c (.canonMap n) = .ok (some itv)) (hs : expectedTetraplets (.canonMap n) (prov c) = some ts)
+    (k : Nat) (x : JVal) (t : Tetraplet) (pos : Nat) (p : Provenance)
+    (hk : (itv.setCursor k).peek = .ok (some (x, t, pos, p))) : t ∈ ts := by
+  simp only [createScalarIterable, bind, Res.bind] at h
+  simp only [expectedTetraplets, prov, canonMapTetraplets] at hs
+  cases hg : c.scalars.getCanonMap n with
+  | ok cm =>
+    simp only [hg] at h hs
+    injection hs with hs; subst hs
+    split at h
+    · simp [pure] at h
+    · simp only [pure] at h
+      injection h with h; injection h with h; subst h
+      simp only [IterableValue.setCursor, IterableValue.peek] at hk
+      split at hk
+      · cases hk
+      · split at hk
+        · rename_i y hy
+          injection hk with hk; injection hk with hk
+          injection hk with _ hk; injection hk with h1 _
+          subst h1
+          exact List.mem_map.mpr ⟨y, mem_lastPairPerKey (List.mem_of_getElem? hy), rfl⟩
+        · cases hk
+  | error e => simp [hg] at h
+  | panic s => simp [hg] at h
+
+/-- **`#%m.$.key` (one accessor)**: the result is the array of the values under the key and its tetraplet is the canon's
+own (the canonicalising peer, empty service and function) with the lens text as written — what the code does
+(`update_tetraplet_with_path(.., prefix_with_path = false)`). -/
+theorem C17_canon_map_lens_key_tetraplet (c : Ctx) (m : CanonStreamMapAgg) (a : Accessor) (t : Tetraplet)
+    (h : canonMapLensTetraplet c m (.path [a]) = .ok t) :
+    t = { m.tetraplet with lens := (Lambda.path [a]).render } := by
+  unfold canonMapLensTetraplet at h
+  simp only at h
+  split at h
+  · injection h with h; exact h.symm
+  · cases h
+  · cases h
+
+/-- **`#%m.$.key.[i]`**: the tetraplet of the `i`-th value inserted under the key, unchanged (the rest of the lens, if
+any, is appended to ITS lens field) -/
+theorem C17_canon_map_lens_key_index_tetraplet (c : Ctx) (m : CanonStreamMapAgg) (key : String) (i : Nat) (t : Tetraplet)
+    (h : canonMapLensTetraplet c m (.path [.fieldByName key, .arrayAccess i]) = .ok t) :
+    ∃ cs va, m.index (.str key) = some cs ∧ cs.values[i]? = some va ∧ t = va.tetraplet := by
+  unfold canonMapLensTetraplet at h
+  simp only [Lens.ValueAccessor.ofAccessor, Lens.canonMapKeyOfPrefix] at h
+  cases hidx : m.index (.str key) with
+  | some cs =>
+    simp only [hidx, canonMapStreamTetraplet, Lens.ValueAccessor.ofAccessor, Lens.splitToIdx] at h
+    cases hv : cs.values[i]? with
+    | some va =>
+      simp only [hv, List.isEmpty_nil, if_true] at h
+      injection h with h
+      exact ⟨cs, va, rfl, hv, h.symm⟩
+    | none => simp [hv, lambdaErr, catchable] at h
+  | none =>
+    simp only [hidx, canonMapStreamTetraplet, Lens.ValueAccessor.ofAccessor, Lens.splitToIdx] at h
+    simp [lambdaErr, catchable] at h
 
 end AquaProps.C17
